@@ -17,7 +17,7 @@ ASSUMPTIONS = [
     'WFQ: an arrival finds the scheduler empty when no packet is waiting or in transmission (total_packets == 0), also in the instant in which the last '
     'transmission ended and the loop has not yet resumed; the virtual clock advances at service-end bursts with the classes that were in the scheduler '
     'during the elapsed interval (the packet that has just left included)',
-    'the scheduler loop on the real kernel refines the StampServer LTS: checked by replay (labels from Process.target / StoreGet.triggered), not proved',
+    'the scheduler loop on the real kernel refines the StampServer LTS: checked by replay (labels from Process.target / StoreGet.triggered); for VC and WFQ written as processes on the kernel MODEL it is a theorem (Props/C14K.lean: one source, identity flow2class, whole WFQ weights), and those programs are compared bit for bit with the real classes (vck / wfqk legs; workloads without two packets of equal stamp and equal arrival instant)',
     'the static-backlog fairness oracle is evaluated in exact rationals (weights and sizes are exact); no tolerance is needed because the proved bound '
     'has a slack of one maximum packet, rounding of the stamps can only reorder two packets whose exact stamps differ by a few ulps',
 ]
